@@ -67,6 +67,26 @@ def cases(draw, tier):
                               'body': [{'op': 'citer', 's': 0, 'n': None}]})
         return {'name': 'c%d' % i, 'steps': steps}
 
+    if draw(st.integers(0, 15)) == 0:
+        # a long stream: hundreds of messages through one subscription, one consumer keeping pace, one lagging far behind
+        # (it sleeps while the messages pile up), one joining late
+        n = draw(st.integers(140, 300))
+        burst = draw(st.sampled_from([1, 10, 80]))
+        psteps = [{'op': 'sleep', 'd': 0.5}]
+        for j in range(n):
+            psteps.append({'op': 'cput', 's': 0, 'v': 1000 + j})
+            if j % burst == burst - 1:
+                psteps.append({'op': 'sleep', 'd': 0.25})
+        psteps.append({'op': 'cclose', 's': 0})
+        kids = [{'name': 'p0', 'steps': psteps},
+                {'name': 'c0', 'steps': [{'op': 'citer', 's': 0, 'n': None}]},
+                {'name': 'c1', 'steps': [{'op': 'citer', 's': 0, 'n': None, 'gap': draw(st.sampled_from([None, 0.25, 1]))}]},
+                {'name': 'c2', 'steps': [{'op': 'sleep', 'd': draw(st.sampled_from([1, 3]))}, {'op': 'citer', 's': 0, 'n': None}]}]
+        kids = [kids[i] for i in draw(st.permutations(list(range(len(kids)))))]
+        prog = {'start': start, 'objs': {'channels': 1, 'flags': 1}, 'roots': [
+            {'name': 'r0', 'steps': [{'op': 'scope', 'name': 'S', 'children': kids, 'body': [], 'catch': True}]},
+            {'name': 'fin', 'steps': [{'op': 'at_ge', 't': start + 5000}, {'op': 'cclose', 's': 0}, {'op': 'cget', 's': 0}]}]}
+        return {'prog': prog, 'targets': ['c0', 'c1', 'c2'], 'ctl_sweep': False, 'faults': []}
     if draw(st.integers(0, 7)) == 0:
         # one-shot waiters and an iterating consumer; the last message (any value, falsy ones included) is followed by
         # close() in the same turn
